@@ -8,6 +8,30 @@ TRUST = ("Trusted base: the symgo interpreter (validated on every run by replayi
          "everything inside a shape (bytes, runes, digits, integers, case bits) is a solver variable. Outside the stated bounds nothing is claimed.")
 
 CHECKS = {
+ "C04": dict(level="model_checking", technique="bounded symbolic execution of the parser entry points on windows of arbitrary characters, damaged statements and parameter maps; panic, step-bound and result-shape assertions",
+   text="(a) 27 anchor contexts (statement start, after each clause keyword, after an operator, after a sign, after =~, inside call and time() parentheses, after INTO / a dot / ::, inside unterminated strings and comments) with a window of 0..2 (3) characters each of which is ANY Unicode scalar value, NUL included, through ParseQuery / ParseStatement / ParseExpr; (b) every statement family truncated, with a character deleted, or with an arbitrary character inserted / substituted at token boundaries; (c) 24 templates x every bindable parameter kind (symbolic payloads, keywords as identifiers, invalid regex / duration, nil, nested and malformed objects): no feasible panic path, every path within the instruction bound, a result or an error, and a returned result can be printed and walked.",
+   note="Stack exhaustion by extreme nesting and inputs longer than the skeletons are outside the bound. Invalid UTF-8 reaches the lexer as U+FFFD, which is inside the symbolic range. In this check library calls on symbolic arguments (regexp.Compile, ParseFloat, LoadLocation) are over-approximated by 'succeeds or fails', arithmetic-heavy branches are explored on both sides, and windows that are printed afterwards contain no digits (number formatting is C08/C13). "+TRUST, ref="DESIGN.md section 4 C04"),
+ "C07": dict(level="model_checking", technique="bounded symbolic execution of SetParams/BindValue/scan substitution on templates with symbolic parameter payloads vs. template AST",
+   text="Nine templates (literal, regex operand, field, measurement, count, time() argument, after a sign, password, first call argument followed by a second statement) x 14 parameter kinds (string / int / float / bool / duration as string and as integer / regex / identifier / object forms / unbound / unbindable / malformed object), string payloads of 0..2 (3) arbitrary ASCII characters (quotes, semicolons, comment markers included) and 64-bit integers as solver variables: the result is an error or exactly the template's AST with the bound value at the placeholder; unbound, empty and unbindable parameters are rejected; a string parameter equals the written-out literal (own escaper).",
+   note="Float and regex payloads are from lists. "+TRUST, ref="DESIGN.md section 4 C07"),
+ "C11": dict(level="translation_validation", technique="SMT theory of strings/regular expressions: language equivalence of each regex with the literals the real rewrite produced, over ALL strings",
+   text="~6600 programs (51 regex bodies x 20 anchor/flag frames x =~/!~ x 3 condition contexts, plus alternations of 99/100/101 literals) are parsed and rewritten by the real RewriteRegexConditions inside the interpreter; when the code rewrote the test, the regex (translated to an SMT-LIB RegLan with Go's unanchored-search semantics) is compared with the produced literal set by z3-new and cvc5: unsat = equivalent for every string, sat = a witness string that is replayed natively.",
+   note="Obligations are per program; anchors in positions the translator cannot express are acceptable only when the code did not rewrite (otherwise inconclusive). programs = regex programs checked, disagreements_checked = witnesses replayed natively. "+TRUST, ref="DESIGN.md section 4 C11"),
+ "C12": dict(level="model_checking", technique="bounded symbolic execution of RewriteFields under schemas with symbolic field types, every map iteration order explored, vs. an independent expansion model",
+   text="14 statement shapes (*, *::field, *::tag, /regex/, mixed fields, calls with wildcard or regex arguments incl. type-filtered functions, GROUP BY tag / * / regex) over 1..2 measurements whose field presence is enumerated and whose field TYPES are solver variables (conflicts across measurements included), tags shadowing fields: the rewritten fields and dimensions equal the reference expansion (merge by documented type precedence, sorted by name then type, tags left out of calls and of grouped-by keys), for EVERY iteration order of every Go map with <= 4 entries; the receiver is not written.",
+   note="Subquery sources and more than two names per measurement are outside the quick bound. "+TRUST, ref="DESIGN.md section 4 C12"),
+ "C15": dict(level="model_checking", technique="bounded symbolic execution of the printers and of Sanitize (regexp leftmost-first model on the real compiled programs) on password statements with symbolic content and layout",
+   text="CREATE USER / SET PASSWORD statements with symbolic password (0..2 (3) elements incl. escapes and blanks), symbolic user name, keyword case and gaps: String() does not depend on the password; Sanitize(text) keeps everything before and after the literal and replaces it by a fixed redaction; text without a password clause (all other statement families, look-alikes) is returned unchanged. Layouts outside what Sanitize's two patterns were written for carry separate labels (known findings).",
+   note="The regexp engine is a model (leftmost-first backtracking over the real syntax.Prog), validated against the native matcher by the smoke self-check and by native replay of every counterexample. "+TRUST, ref="DESIGN.md section 4 C15"),
+ "C16": dict(level="model_checking", technique="bounded symbolic execution: canonical vs. whitespace/comment variant of every statement skeleton, deep AST equality; separator combinations",
+   text="For every statement family and every inter-token gap: the gap replaced by 1..2 arbitrary whitespace characters (SP, TAB, LF, CR as solver variables), CRLF, a line comment or a block comment with a symbolic body flanked by whitespace parses to the same AST as the canonical text; 1..3 statements joined with every combination of separators, empty statements and trailing semicolons parse to exactly those statements, a missing separator is an error.",
+   note="One gap is varied at a time. "+TRUST, ref="DESIGN.md section 4 C16"),
+ "C17": dict(level="other", technique="non-interference per operation by symbolic execution with a write monitor (reduction to race freedom); counterexamples confirmed with go test -race",
+   text="For 17 operations (parse, print, quote, format/parse durations, sanitize, and on a shared AST: clone, walk, evaluate, reduce, RewriteFields, names, privileges, ConditionExpr, CloneExpr, keyword lookup) over statement skeletons with symbolic content: no path performs a store into package state or into any object reachable from the shared AST. Operations that only read shared memory cannot race under any schedule and their results are functions of their arguments; that step is the Go memory model, not an execution of schedules.",
+   note="No interleaving is executed by the engine. A reported store is replayed natively by running the operation twice concurrently under the race detector. regexp.Regexp, strings.Replacer and time.Location are trusted to be safe for concurrent use. "+TRUST, ref="DESIGN.md section 4 C17"),
+ "C18": dict(level="model_checking", technique="induction over the call history: base and step obligations discharged by bounded symbolic execution of SetTimeRange + ConditionExpr + evaluation at a symbolic point",
+   text="Base: from an initial condition (0..2 earlier time bounds with symbolic operators, integer or now()-relative bounds, time on the left / on the right / spelled TIME, joined with a non-time part P by AND and parentheses, OR inside P) one SetTimeRange(A,B) yields a condition whose time range is exactly [A, B-1ns] and whose residual evaluates like P at a symbolic point. Step: a second call (C,D) yields exactly [C, D-1ns], the same P, and a condition of the same size. Base + step cover call sequences of every length.",
+   note="Windows are concrete (5 pairs incl. 1 ns wide and empty) because they pass through time formatting. "+TRUST, ref="DESIGN.md section 4 C18"),
  "C01": dict(level="model_checking", technique="bounded symbolic execution of lexer+parser on statement skeletons with symbolic holes vs. generator-built AST (one deep-equality term per path)",
    text="27 statement families (every handler of the parser's Language tree; a coverage harness fails if a handler has no generator) are rendered from grammar skeletons whose keyword letter case, whitespace gaps, identifier characters, string characters, integer digits and duration digits are solver variables; the AST returned by the real ParseQuery must be deeply equal (every field, set or not) to the AST the generator built from the same choices. Shapes (option subsets, expression forms, quoting forms, digit counts) are enumerated one-variant-at-a-time (pairwise in thorough).",
    note="Shape coverage is one-at-a-time around a default skeleton (quick) / pairwise (thorough), not the full product; names <= 2 (3) characters; float spellings, regex bodies and time-zone names are from lists. "+TRUST, ref="DESIGN.md section 4 C01"),
